@@ -7,6 +7,7 @@
 import Aqv.Base.Proto
 import Aqv.Base.Keccak
 import Aqv.Model.LogFilter
+import Aqv.Model.HashMemo
 open Aqv Aqv.Proto Aqv.LogFilter
 
 structure St where
@@ -19,14 +20,10 @@ structure St where
   cindex : List (List Bytes) := []
   chain : List Block := []
 
-/-- Keccak-256 with a memo table (extensionally `keccak256`). -/
-def mkH (tbl : List (Bytes × Bytes)) : HashFn := fun b =>
-  match tbl.lookup b with
-  | some h => h
-  | none => Keccak.keccak256 b
+/-- Keccak-256 with a memo table: `Aqv.HashMemo.mkH` over `keccak256` (= `keccak256`, theorem `memoised_hash_is_the_hash`). -/
+def mkH (tbl : List (Bytes × Bytes)) : HashFn := HashMemo.mkH Keccak.keccak256 tbl
 
-def memo (tbl : List (Bytes × Bytes)) (items : List Bytes) : List (Bytes × Bytes) :=
-  items.foldl (fun t b => match t.lookup b with | some _ => t | none => (b, Keccak.keccak256 b) :: t) tbl
+def memo (tbl : List (Bytes × Bytes)) (items : List Bytes) : List (Bytes × Bytes) := HashMemo.memo Keccak.keccak256 tbl items
 
 def parseItem (st : St) (tok : String) : Option Bytes :=
   match tok.toList with
@@ -83,13 +80,6 @@ def genErrTok : GenErr → String
   | .notFull => "notfull"
   | .indexPanic => "panic"
 
-/-- Spec of a bit vector: column `i` of the blooms added so far, MSB-first, `size/8` bytes (what `transpose_spec` states). -/
-def specColumn (blooms : Array Bytes) (size i : Nat) : Bytes :=
-  (List.range (size / 8)).map (fun k =>
-    (List.range 8).foldl (fun (acc : UInt8) j =>
-      let n := 8 * k + j
-      if n < blooms.size && (beNat blooms[n]!).testBit i then acc ||| ((1 : UInt8) <<< (7 - j).toUInt8) else acc) 0)
-
 /-- one generator session: ops `a<index>:<bits>` / `q<idx>`. Returns the model outputs and, per op, the output the Spec also
     accepts (a generator that hands out the correct column where the code as written refuses is a harmless difference). -/
 def runGen (size : Nat) (ops : List String) : List String × List String :=
@@ -115,7 +105,7 @@ def runGen (size : Nat) (ops : List String) : List String × List String :=
         | some idx =>
           -- Spec: a bit index outside the bloom may be refused with an error; inside, a filled generator may hand out the column
           let alt := if idx ≥ 2048 then "oob"
-            else if added.size == size then "ok:" ++ hexOrDash (specColumn added size idx) else ""
+            else if added.size == size then "ok:" ++ hexOrDash (specColumn added.toList size idx) else ""
           match g.bitset idx with
           | .ok v => (g, added, ("ok:" ++ hexOrDash v) :: outs, alt :: alts)
           | .error e => (g, added, genErrTok e :: outs, alt :: alts)
